@@ -216,7 +216,7 @@ def run_job(job, tree, trace=False):
     # callee's own locals as "not assignable".  When the callee is a function the loop baseline does not know (a helper that a
     # change introduced), has no static locals and the loop is executed by unwinding (bound 70, unwinding assertions on), these
     # reports are noise: the callee's locals are fresh per call, every other obligation is still checked on every path.
-    noise = [r for r in limits if new_function_local(r, tree)]
+    noise = [r for r in limits if new_function_local(r, tree, job_dirs(job))]
     if noise and len(noise) == len(limits):
         out["ignored"] = ["[%s] %s" % (r["name"], r["desc"]) for r in noise]
         limits = []
@@ -240,7 +240,7 @@ def run_job(job, tree, trace=False):
         # longer describes.  The invariant may be broken because the code is wrong or because the loop was restructured; the job
         # is a VIOLATION only with a native failing input, otherwise UNDECIDED.
         out["frame_mismatch"] = "loop invariant not inductive for this code: " + "; ".join("[%s]" % r["name"] for r in inv_broken[:4])
-    elif fails and job.loops and job.enforce and all(inductive_only(r, tree) for r in fails):
+    elif fails and job.loops and job.enforce and all(inductive_only(r, tree, job_dirs(job)) for r in fails):
         # Every failed obligation of this loop-contract job lies on a path through a havocked loop head or in the proof's own
         # scaffolding (invariant, role precondition of a replaced callee, pointer re-normalisation, ghost-stated postcondition):
         # it can mean "the code is wrong" or "the loop was restructured and needs another invariant".  No memory-safety
@@ -260,7 +260,7 @@ _HARD = ("pointer_dereference", "array_bounds", "overflow", "undefined-shift", "
          "precondition_instance", "no-body", "C17 erasure", "C19 constructor")
 
 
-def inductive_only(r, tree):
+def inductive_only(r, tree, dirs=("src", "examples", "arduino")):
     """True for a failed obligation that is part of the loop proof's scaffolding (see run_job); False for memory-safety checks,
     frame checks on objects that are not locals, and checker assertions about real memory (C17)"""
     name, desc = r["name"], r["desc"]
@@ -268,20 +268,26 @@ def inductive_only(r, tree):
         return False
     if ".assigns." in name:
         m = re.match(r"Check that ([A-Za-z_][A-Za-z_0-9]*) is assignable$", desc)
-        return bool(m) and m.group(1) not in file_scope_names(tree, ("src", "examples", "arduino")) and not m.group(1).startswith("VG")
+        return bool(m) and m.group(1) not in file_scope_names(tree, dirs) and not m.group(1).startswith("VG")
     return True
 
 
 _fninfo_cache = {}
 
 
-def new_function_local(r, tree):
+def job_dirs(job):
+    """the directory of the translation unit a job verifies (file-scope names of OTHER programs are irrelevant to it)"""
+    h = getattr(job, "harness", "") or ""
+    return ("examples",) if h.startswith("h_ex_") else ("arduino",) if h.startswith("h_ard_") else ("src",)
+
+
+def new_function_local(r, tree, dirs=("src", "examples", "arduino")):
     """True for dfcc's "Check that <local> is assignable" inside a function that has a loop but is absent from the loop baseline"""
     if not re.match(r"Check that [A-Za-z_][A-Za-z_0-9]* is assignable$", r["desc"]) or ".assigns." not in r["name"]:
         return False
     fn = r["name"].split(".assigns.")[0]
     ident = re.match(r"Check that ([A-Za-z_][A-Za-z_0-9]*) is assignable$", r["desc"]).group(1)
-    if ident in file_scope_names(tree, ("src", "examples", "arduino")):
+    if ident in file_scope_names(tree, dirs):
         return False     # an object with static storage duration: a write outside the frame is a genuine finding
     if tree not in _fninfo_cache:
         base = set()
